@@ -1,8 +1,8 @@
 package main
 
 import (
-	"go/token"
 	"fmt"
+	"go/token"
 	"go/types"
 	"sort"
 	"strings"
@@ -10,11 +10,15 @@ import (
 	"golang.org/x/tools/go/ssa"
 )
 
-func init() { register("C17", "the AST walker reaches every node of every parsed program", func(p *Program, r *Report) {
+func init() {
+	register("C17", "the AST walker reaches every node of every parsed program", func(p *Program, r *Report) {
 		checkC17(p, r)
 		r.Explain("R4 a return that comes before a walker looks at its node is taken only when the node or the callback is nil.")
 		c17EarlyExits(p, r)
-	}) }
+		r.Explain("R5 every error a function of the walker package returns is the callback's result, another walker's result, or the unknown-kind error made in the default arm of the kind switch.")
+		c17ErrorOrigin(p, r)
+	})
+}
 
 // walker describes one function of astutil that walks nodes of a category.
 type walker struct {
@@ -1028,4 +1032,158 @@ func c17EarlyExits(p *Program, r *Report) {
 		}
 	}
 	r.Floor("C17.R4", n, 3)
+}
+
+// c17ErrorOrigin (R5): "returns no error unless the callback does". Every error a function of the walker package can return
+// is the result of the callback, the result of another function of the package, or the "unknown kind" error made in the
+// default arm of the switch over the node's kind (the arm reached only when no kind matched; the kinds that do reach it are
+// R1's business). An error made anywhere else is an error the callback did not return.
+func c17ErrorOrigin(p *Program, r *Report) {
+	sp := p.SSAPkg("ast/astutil")
+	if sp == nil {
+		return
+	}
+	n := 0
+	for _, fn := range SrcFuncs(sp) {
+		res := fn.Signature.Results()
+		if res.Len() == 0 || !isErrorType(res.At(res.Len()-1).Type()) || len(fn.Blocks) == 0 {
+			continue
+		}
+		// the failing edges of every kind test on the node: a block is in the default arm when all of them dominate it
+		var failEdges []*ssa.BasicBlock
+		if len(fn.Params) > 0 {
+			for _, b := range fn.Blocks {
+				for _, in := range b.Instrs {
+					ta, ok := in.(*ssa.TypeAssert)
+					if !ok || !ta.CommaOk || ta.X != ssa.Value(fn.Params[0]) {
+						continue
+					}
+					if iff, ok := b.Instrs[len(b.Instrs)-1].(*ssa.If); ok {
+						if ex, ok := iff.Cond.(*ssa.Extract); ok && ex.Tuple == ssa.Value(ta) && ex.Index == 1 {
+							failEdges = append(failEdges, b.Succs[1])
+						}
+					}
+				}
+			}
+		}
+		// the node is presented to the callback before its kind is examined (R3): the default arm lies after that call
+		var presented []ssa.Instruction
+		if len(fn.Params) > 0 {
+			for _, b := range fn.Blocks {
+				for _, in := range b.Instrs {
+					c, ok := in.(*ssa.Call)
+					if !ok {
+						continue
+					}
+					for _, a := range c.Call.Args {
+						if ci, ok := a.(*ssa.ChangeInterface); ok {
+							a = ci.X
+						}
+						if mi, ok := a.(*ssa.MakeInterface); ok {
+							a = mi.X
+						}
+						if a == ssa.Value(fn.Params[0]) {
+							presented = append(presented, c)
+						}
+					}
+				}
+			}
+		}
+		inDefault := func(b *ssa.BasicBlock) bool {
+			if len(failEdges) < 2 {
+				return false // one test is not a switch over the kinds
+			}
+			shown := false
+			for _, c := range presented {
+				if c.Block() != b && c.Block().Dominates(b) {
+					shown = true
+				}
+			}
+			if !shown {
+				return false
+			}
+			for _, fe := range failEdges {
+				if fe != b && !fe.Dominates(b) {
+					return false
+				}
+			}
+			return true
+		}
+		count := map[string]int{}
+		seen := map[ssa.Value]bool{}
+		var visit func(v ssa.Value, at ssa.Instruction)
+		visit = func(v ssa.Value, at ssa.Instruction) {
+			if seen[v] {
+				return
+			}
+			seen[v] = true
+			switch x := v.(type) {
+			case *ssa.Const:
+				return
+			case *ssa.Phi:
+				for _, e := range x.Edges {
+					visit(e, x)
+				}
+				return
+			case *ssa.Extract:
+				visit(x.Tuple, x)
+				return
+			case *ssa.ChangeInterface:
+				visit(x.X, x)
+				return
+			case *ssa.Call:
+				what := "a call through a function value"
+				own := false
+				if x.Call.IsInvoke() {
+					what = "method " + x.Call.Method.Name()
+				} else if sc := x.Call.StaticCallee(); sc != nil {
+					what = funcName(sc)
+					own = sc.Pkg == sp
+				} else if _, isPar := x.Call.Value.(*ssa.Parameter); isPar {
+					own = true // the callback
+				} else if _, isFV := x.Call.Value.(*ssa.FreeVar); isFV {
+					own = true
+				}
+				n++
+				key := fn.Name() + "|error from " + what
+				count[key]++
+				inst := key
+				if count[key] > 1 {
+					inst = fmt.Sprintf("%s #%d", key, count[key])
+				}
+				r.Check(own || inDefault(x.Block()), "C17.R5", inst, p.Pos(instrPos(x)),
+					"the callback's, a sub-walk's, or the unknown-kind error of the default arm",
+					"the walker makes an error of its own outside the default arm of its kind switch: Walk can fail although the callback never returned an error")
+				return
+			}
+			n++
+			key := fn.Name() + "|error value " + strings.SplitN(v.String(), "(", 2)[0]
+			count[key]++
+			inst := key
+			if count[key] > 1 {
+				inst = fmt.Sprintf("%s #%d", key, count[key])
+			}
+			var pos token.Pos
+			if in, ok := v.(ssa.Instruction); ok {
+				pos = instrPos(in)
+			} else {
+				pos = instrPos(at)
+			}
+			blk := at.Block()
+			if in, ok := v.(ssa.Instruction); ok {
+				blk = in.Block()
+			}
+			r.Check(inDefault(blk), "C17.R5", inst, p.Pos(pos),
+				"the callback's, a sub-walk's, or the unknown-kind error of the default arm",
+				"the walker returns an error of its own outside the default arm of its kind switch: Walk can fail although the callback never returned an error")
+		}
+		for _, b := range fn.Blocks {
+			ret, ok := b.Instrs[len(b.Instrs)-1].(*ssa.Return)
+			if !ok || len(ret.Results) == 0 {
+				continue
+			}
+			visit(ret.Results[len(ret.Results)-1], ret)
+		}
+	}
+	r.Floor("C17.R5", n, 60)
 }
